@@ -72,6 +72,9 @@ def run_rules(P, rule_ids, env=None):
             fn(ctx)
         except AnalysisError as e:
             err = str(e)
+        if err is None and getattr(ctx, "open_obligations", None):
+            k, m, site = ctx.open_obligations[0]
+            err = "%s: %d open panic obligation(s), e.g. %s at %s: %s" % (rid, len(ctx.open_obligations), k, site, m)
         # `floor` documents the instance count confirmed by hand on the pinned tree; what is
         # enforced is non-vacuity: a rule that judged nothing cannot pass.  (A changed count is
         # not an alarm by itself: removing a guarded site is not a violation of its guard.)
